@@ -291,6 +291,21 @@ def _contradicted(fin, fout, worlds):
     return False
 
 
+def _node_name(sub, members):
+    """Class name of the contradicting node; list tensors are split by what is wrong with their rows (two different
+    mechanisms of the same handler must not share a key)."""
+    name = type(sub).__name__
+    if name != "ListTensor":
+        return name
+    rows = sub.ufl_operands
+    nums = [frozenset(a.number() for a in arguments_in(r)) for r in rows]
+    if any(not n and type(r).__name__ != "Zero" for n, r in zip(nums, rows)):
+        return "ListTensor-argument-free-row"
+    if len({n for n in nums if n}) > 1:
+        return "ListTensor-rows-with-different-arguments"
+    return "ListTensor-other"
+
+
 def localise(rng, I, members, args, cplx, worlds, mode):
     """First in the world where the disagreement was seen, then (rare numeric coincidences) in the others."""
     name = _localise(rng, I, members, args, cplx, worlds[:1], mode)
@@ -321,13 +336,13 @@ def _localise(rng, I, members, args, cplx, worlds, mode):
             if not flags:
                 # the checker says `sub` does not depend on the argument: compare sub[a := p] with sub[a := 0]
                 if _contradicted(t.zero_in, t.dep_out, worlds):
-                    return type(sub).__name__
+                    return _node_name(sub, members)
                 continue
             if len(flags) > 1:
                 continue
             anti = cplx and flags.pop()
             if _contradicted(t.zero_in, t.zero_out, worlds) or _contradicted(t.lin_in, t.lin_out(anti), worlds):
-                return type(sub).__name__
+                return _node_name(sub, members)
         except Exception:
             continue
     return "toplevel"
